@@ -18,6 +18,7 @@ package main
 // The same history is compared with C09.store_run inside Coq (case CStore).
 
 import (
+	"os"
 	"fmt"
 	"strings"
 	"time"
@@ -50,7 +51,11 @@ func topVerdict(f func() error) (ok bool, panicked bool) {
 			ok, panicked = false, true
 		}
 	}()
-	return f() == nil, false
+	err := f()
+	if err != nil && os.Getenv("C09_DEBUG") != "" { // development aid
+		fmt.Fprintln(os.Stderr, "top-level verdict:", err)
+	}
+	return err == nil, false
 }
 
 // storePaths returns the CStore term of the case ("" when the case is outside the model)
